@@ -43,14 +43,14 @@ chk("C04", "model_checking", "exhaustive one-command-deep value sweep from base 
     "Trusted: the mocks and the fair-RNG argument (every low-bit pattern recurs). nb runs the full Layer A domain, the async front-ends a stride of it (shared MAC code). Layer C: runs of 150-400 unanswered join attempts per join-bias setting on the fixed plans; Class C idle listening hears junk and oversized frames. Invalid application arguments are outside the alphabet.",
     "DESIGN.md §3 C04")
 
-chk("C10", "exploration", "exhaustive configuration sweep on the real devices against independent regional tables",
-    "Per region and front-end (nb, async, async+Class C) eight full sub-products of configurations are installed on a fresh real device through authentic downlinks and set_datarate: every uplink data rate x RX1DROffset 0..7 x first RNG draw (all 64 for 72-channel plans), RXTimingSetupReq 0..15 x board timing x TX end time, all 16 RX2 data-rate values x frequencies, DlChannelReq mappings, joins under join-bias settings, and a data-rate change between TX and the windows. RX1/RX2 RfConfig, the size limit bound to each window, Class C parameters and the requested window times are compared with RP002 tables written independently.",
-    "Trusted: refregion.rs (set-valued where RP002 revisions differ; FSK/LR-FHSS entries only require some region-defined LoRa rate). nb offset sign convention accepted either way.",
+chk("C10", "model_checking", "explicit-state BFS over command / data-rate / (re-)join / uplink histories with a reference model of the parameters in force, plus an exhaustive configuration sweep; independent regional tables as oracle",
+    "(H) BFS on one real device per region x front-end (nb, async, async+Class C) x {ABP, OTAA}: uplinks (first RNG draw from a set), uplinks answered in RX1 or RX2 by RXParamSetupReq (valid and invalid-in-one-field variants), RXTimingSetupReq, DlChannelReq, NewChannelReq create / redefine / delete, LinkADRReq, set_datarate (also between TX and the windows), unanswered join attempts and (re-)joins with other DLSettings / RxDelay; every transaction that transmits is judged against a reference model of the parameters in force (updated only by unambiguously valid requests) and the RP002 tables: RX1 frequency / data rate, RX2 frequency / data rate, Class C parameters between and after the windows, window size limits and window times. (P) Per region and front-end eight full sub-products of configurations installed on a fresh device through authentic downlinks: every uplink data rate x RX1DROffset 0..7 x first RNG draw (all 64 for 72-channel plans), RXTimingSetupReq 0..15 x board timing x TX end time (incl. the 2^31 / 2^32 ms clock boundaries), all 16 RX2 data-rate values x frequencies, DlChannelReq mappings, joins under join-bias settings, a data-rate change between TX and the windows.",
+    "Trusted: refregion.rs (set-valued where RP002 revisions differ; FSK/LR-FHSS entries only require some region-defined LoRa rate). nb offset sign convention accepted either way. What a (re-)join does to remapped downlink frequencies of default channels and to extra channels is not stated: both are admitted. Join windows opened from a session with negotiated parameters are judged on RX1 frequency, timing and 'region-defined rate' only. History depth 3 (quick) / 4 (thorough) transactions.",
     "DESIGN.md §3 C10")
 
 chk("C09", "model_checking", "explicit-state BFS over channel-plan histories with every RNG outcome of each transmission enumerated; TxConfig judged against snapshot and regional tables",
     "BFS on the real device per region x board (radio max power, antenna gain) x activation / join-bias / ADR-back-off configuration. In every reached state the next uplink or join attempt is expanded once per value of the first RNG draw (the harness owns the RNG, so every possible channel choice is checked, not sampled); other events reshape the plan (LinkADRReq masks/DR/TX power, NewChannelReq create/delete, DlChannelReq, CFLists incl. minimal and out-of-band, set_datarate). Each TxConfig must be in band, on a defined and enabled channel (join: a join channel at the mandated rate), at a region-defined rate whose bandwidth matches the channel, within the power bound; selection must terminate under the fair stream.",
-    "Trusted: refregion.rs (most permissive EIRP of set-valued entries). Explored on the nb front-end (channel selection and power are shared MAC code).",
+    "Trusted: refregion.rs (most permissive EIRP of set-valued entries). Both front-ends are explored (nb; async in Class A for ABP and with Class C enabled for OTAA).",
     "DESIGN.md §3 C09")
 
 chk("C11", "model_checking", "exhaustive JoinAccept value sweep from several pre-histories + explicit-state BFS over join histories, reference codec/region as oracle",
